@@ -119,6 +119,14 @@ func genURLC50(t *rapid.T, schemes []string) (string, urlPartsC50) {
 	return p.scheme + "://" + p.userinfo + p.host + p.path + query, p
 }
 
+// hostShownC50: the host is in the displayed form, literally or percent-encoded the way
+// net/url prints a host.
+func hostShownC50(shown, host string) bool {
+	low := strings.ToLower(shown)
+	enc := strings.TrimPrefix((&url.URL{Scheme: "x", Host: host}).String(), "x://")
+	return strings.Contains(low, strings.ToLower(host)) || strings.Contains(low, strings.ToLower(enc))
+}
+
 // leaksC50 returns a description of how shown reveals the secret, or "".
 func leaksC50(shown string, pw credC50) string {
 	if strings.Contains(shown, markerC50) {
@@ -219,7 +227,7 @@ func TestVerifC50Rest(t *testing.T) {
 			}
 			if !sameWhenParsed {
 				classes = append(classes, "rest:display-not-reparsable-to-same")
-				if !strings.Contains(strings.ToLower(shown), strings.ToLower(cfg.URL.Host)) {
+				if !hostShownC50(shown, cfg.URL.Host) {
 					t.Fatalf("location %q is displayed as %q (host %q lost)", s, shown, cfg.URL.Host)
 				}
 				if !strings.Contains(shown, strings.TrimSuffix(cfg.URL.EscapedPath(), "/")) && !strings.Contains(shown, strings.TrimSuffix(cfg.URL.Path, "/")) {
@@ -277,7 +285,7 @@ func sameTargetC50(scheme, s, shown string) string {
 			return ""
 		}
 	}
-	if !strings.Contains(strings.ToLower(shown), strings.ToLower(orig.Host)) {
+	if !hostShownC50(shown, orig.Host) {
 		return fmt.Sprintf("host %q is lost", orig.Host)
 	}
 	if !strings.Contains(shown, strings.TrimSuffix(orig.EscapedPath(), "/")) && !strings.Contains(shown, strings.TrimSuffix(orig.Path, "/")) {
